@@ -78,7 +78,7 @@ def _run(ctx: Ctx) -> Result:
         return o.split(' ')[0] == 'T', o, list(vmrun.LAST.get('tapes', []))
 
     def push(b):
-        return T.Script.from_src('push x' + b.hex()).bytes
+        return G.push(b)          # the documented smallest push, encoded by the harness itself (not by the compiler under test)
 
     # ---- deterministic probes of the two recorded native / non-native differences (K6, K7)
     pseed = bytes(range(32)); ppk = bytes(SigningKey(pseed).verify_key)
@@ -98,6 +98,18 @@ def _run(ctx: Ctx) -> Result:
             k6.append({'limits': cfg.line(), 'what': what, 'scripts': [w.hex(), lk.hex(), nlk.hex()], 'cache': vmrun.cache_str(psf, False)})
         elif a != b or a2 != b2:
             B.viol(f'native and non-native taproot locks disagree ({what})', {'scripts': [w.hex(), lk.hex(), nlk.hex()], 'limits': cfg.line(), 'cache': vmrun.cache_str(psf, False)}, f'native={a}', f'nonnative={b}')
+    # ... and the other side of each K6 boundary: one unit more and the two locks agree (K6 is exactly that much room, not more)
+    for what, scr, w, kw in (
+            ('script path, stack_max_item_size=64', ptrue, T.make_taproot_witness_scriptspend(ppk, ptrue).bytes, dict(max_item_size=64)),
+            ('script path, callstack_limit=2', ptrue, T.make_taproot_witness_scriptspend(ppk, ptrue).bytes, dict(call_limit=2)),
+            ('key path, stack_max_items=3', ptrue, T.make_taproot_witness_keyspend(pseed, psf, ptrue).bytes, dict(max_items=3)),
+            ('key path, callstack_limit=1', ptrue, T.make_taproot_witness_keyspend(pseed, psf, ptrue).bytes, dict(call_limit=1))):
+        cfg = vmrun.Cfg(now=B.now, **kw)
+        lk, nlk = T.make_taproot_lock(ppk, scr).bytes, T.make_nonnative_taproot_lock(ppk, scr).bytes
+        a = auth([w, lk], psf, cfg)[0]; b = auth([w, nlk], psf, cfg)[0]
+        res.note_case(('probe-agree', what))
+        if not (a and b):
+            B.viol(f'native and non-native taproot locks: honest builder witness, {what}', {'scripts': [w.hex(), lk.hex(), nlk.hex()], 'limits': cfg.line(), 'cache': vmrun.cache_str(psf, False)}, 'native=True nonnative=True', f'native={a} nonnative={b}')
     w7 = T.Script.from_src('def 0 { true }').bytes + T.make_taproot_witness_scriptspend(ppk, pcall).bytes
     a = auth([w7, T.make_taproot_lock(ppk, pcall).bytes], psf)[0]; b = auth([w7, T.make_nonnative_taproot_lock(ppk, pcall).bytes], psf)[0]
     res.note_case(('probe', 'K7'))
@@ -137,6 +149,10 @@ def _run(ctx: Ctx) -> Result:
         code, prefix = committed_scripts(T, rng, sf)
         if it % 5 == 2:      # a committed script of exactly 32 bytes (the length of a hash / a key)
             code, prefix = MARK + push_(V.rbytes(rng, 21)) + bytes([6, 1]), b''
+        if it % 7 == 3:      # committed scripts whose length sits on a push-size boundary (the script-spend witness pushes the script)
+            ln_ = [255, 256, 257, 254, 1000, 1024][(it // 7) % 6]
+            padlen = ln_ - len(MARK) - 2 - 3            # marker, `pop0 true`, PUSH header
+            code, prefix = MARK + (bytes([3, padlen]) if padlen < 256 else bytes([4]) + (padlen - 1).to_bytes(2, 'big')) + V.rbytes(rng, padlen if padlen < 256 else padlen - 1) + bytes([6, 1]), b''
         script = T.Script.from_bytes(code)
         inp = {'seed': seed.hex(), 'script': code.hex(), 'lock_flags': lf, 'witness_flags': wf, 'sigfields': {k: v.hex() for k, v in sf.items()}}
         res.note_case((seed, code, lf, wf, tuple(sorted(sf))))
@@ -300,7 +316,8 @@ def _run(ctx: Ctx) -> Result:
                 n_diff_excluded += 1; continue
             # K6: the non-native lock needs room the native instruction does not (3 stack slots, a 64-byte item, one more call):
             # the difference disappears when the same lists run with the default limits
-            if restricted and a and not b:
+            tight = cfg.max_items < 1024 or cfg.max_item_size < 64 or cfg.call_limit - cnt < 2      # what K6 is about, as written in the case
+            if restricted and tight and a and not b:
                 d = vmrun.Cfg(now=B.now)
                 a2 = auth([w, lock.bytes], cache, d, record=False)[0]; b2 = auth([w, nlock.bytes], cache, d, record=False)[0]
                 if a2 == b2:
